@@ -3,6 +3,7 @@ package stringlib
 import (
 	"encoding/binary"
 	"math"
+	"strings"
 )
 
 type packFormatReader struct {
@@ -37,6 +38,17 @@ func (p *packFormatReader) smallOptSize(defaultSize uint) (ok bool) {
 		p.err = errMissingSize // TODO: check this condition occurs
 	}
 	return
+}
+
+// alignNext handles option "X": the option that follows only provides an
+// alignment (see align() in the packer, the unpacker and the packsizer), so
+// there must be one and it must be an option that has a size.
+func (p *packFormatReader) alignNext() {
+	if p.i >= len(p.format) || strings.IndexByte("bBhHlLjJTiIfdnsx", p.format[p.i]) < 0 {
+		p.err = errExpectedOption
+		return
+	}
+	p.alignOnly = true
 }
 
 const maxDecuplable = math.MaxUint / 10
